@@ -27,6 +27,11 @@ pub enum Inject {
     RepeatedOrig,
     /// label out of reach at statement position `.0`, with PC-relative form `.1`
     OutOfReach(u8, u8),
+    /// backward reference from the last statement to the first in a program of a targeted total
+    /// size right at the reach of the field (selector, form)
+    BackwardAtSize(u8, u8),
+    /// valid program placed so high that the image ends around the top of memory (selector)
+    HighOrigin(u8),
 }
 
 #[derive(Clone, Debug, Serialize, Deserialize)]
@@ -62,6 +67,7 @@ fn source_for(spec: &ProgSpec, inject: Inject) -> Option<(String, bool, bool, Op
         Inject::DuplicateLabel => extra.push_str("MAIN add r0 r0 r0\n"),
         Inject::UndefinedLabel => extra.push_str("br NOSUCHLABEL\n"),
         Inject::RepeatedOrig => extra.push_str(".orig x3000\n.orig x3000\n"),
+        Inject::BackwardAtSize(..) | Inject::HighOrigin(_) => {}
         Inject::OutOfReach(pos, form) => {
             let (op, regs) = pcrel_form(form);
             if op == Op::Call && !built.stack {
@@ -86,14 +92,42 @@ fn source_for(spec: &ProgSpec, inject: Inject) -> Option<(String, bool, bool, Op
             p.lines.push(Line::stmt(Some("FARAWAY"), Stmt::simple(Op::Halt)));
         }
     }
+    match inject {
+        Inject::BackwardAtSize(sel, form) => {
+            let (op, regs) = pcrel_form(form);
+            if op == Op::Call && !built.stack {
+                return None;
+            }
+            let reach = 1usize << (op.pcrel_bits().unwrap() - 1);
+            let total = [reach - 1, reach, reach + 1, reach + 2, reach + 3, reach + 44][sel as usize % 6];
+            p = refasm::with_backward_reference(&p, op, &regs, total)?;
+        }
+        Inject::HighOrigin(sel) => {
+            let mut n = 0usize;
+            for l in &p.lines {
+                if let Body::Stmt(s) = &l.body {
+                    n += s.size()?;
+                }
+            }
+            // origin such that origin + n is 0x10000 - 2 ..= 0x10000 + 2 (the last fitting image
+            // ends at 0xFFFE with the implicit HALT at 0xFFFF)
+            let o = (0x10000i64 - n as i64 + (sel as i64 % 5) - 2).clamp(0, 0xFFFF) as u16;
+            if matches!(p.lines.first().map(|l| &l.body), Some(Body::Orig(_))) {
+                p.lines[0].body = Body::Orig(Lit::Hex(o, 0));
+            } else {
+                p.lines.insert(0, Line { label: None, body: Body::Orig(Lit::Hex(o, 0)) });
+            }
+        }
+        _ => {}
+    }
     let verdict = refasm::judge(&p, built.stack);
     let image = match &verdict {
-        Verdict::Accept(img) if matches!(inject, Inject::None | Inject::OutOfReach(..)) => Some(img.clone()),
+        Verdict::Accept(img) if matches!(inject, Inject::None | Inject::OutOfReach(..) | Inject::BackwardAtSize(..) | Inject::HighOrigin(_)) => Some(img.clone()),
         _ => None,
     };
     let valid = match (verdict, inject) {
-        (Verdict::Accept(_), Inject::None | Inject::OutOfReach(..)) => true,
-        (Verdict::Reject("label out of reach"), Inject::OutOfReach(..)) => false,
+        (Verdict::Accept(_), Inject::None | Inject::OutOfReach(..) | Inject::BackwardAtSize(..) | Inject::HighOrigin(_)) => true,
+        (Verdict::Reject("label out of reach"), Inject::OutOfReach(..) | Inject::BackwardAtSize(..)) => false,
         (Verdict::Accept(_), _) => false, // the error is in the appended text
         _ => return None,
     };
@@ -119,10 +153,12 @@ fn judge_source(spec: &ProgSpec, inject: Inject, stack_flag: bool) -> Obs {
     obs.key = hash_of(&(&text, stack_flag));
     let shown = format!("inject={inject:?} -f stack: {stack_flag}, uses stack mnemonics: {uses_stack}\n{text}");
     obs.show = Some(shown.clone());
-    obs.nontrivial = matches!(inject, Inject::OutOfReach(..)) || uses_stack;
+    obs.nontrivial = matches!(inject, Inject::OutOfReach(..) | Inject::BackwardAtSize(..) | Inject::HighOrigin(_)) || uses_stack;
     obs.label(match inject {
         Inject::None => "source-valid",
-        Inject::OutOfReach(..) => "error-only-at-emission",
+        Inject::HighOrigin(_) => "image-ends-around-top-of-memory",
+        Inject::OutOfReach(..) | Inject::BackwardAtSize(..) if valid => "reference-barely-in-reach",
+        Inject::OutOfReach(..) | Inject::BackwardAtSize(..) => "error-only-at-emission",
         _ => "error-before-emission",
     });
     if uses_stack {
@@ -134,16 +170,27 @@ fn judge_source(spec: &ProgSpec, inject: Inject, stack_flag: bool) -> Obs {
             let orig = img.orig.unwrap_or(0x3000);
             orig as usize + img.words.len() + 1 <= 0x10000
                 && !matches!(refvm::run(Vm::load(orig, &img.words, stack_flag), &[], 20_000, Some(0xFFFD)).stop, RunStop::OutOfFuel | RunStop::Unspecified("rti"))
+                || orig as usize + img.words.len() + 1 > 0x10000
         }
         None => false,
     };
-    if valid && !terminates {
+    let fits = image.as_ref().map(|img| img.orig.unwrap_or(0x3000) as usize + img.words.len() + 1 <= 0x10000).unwrap_or(true);
+    if valid && fits && !terminates {
         obs.excluded = Some("program would not terminate when run");
         return obs;
     }
     let dir = TempDir::new();
     dir.write("f.asm", text.as_bytes());
-    let feat: Vec<&str> = if stack_flag { vec!["--features", "stack"] } else { vec![] };
+    // the three documented spellings of the flag
+    let feat: Vec<&str> = if stack_flag {
+        match obs.key % 3 {
+            0 => vec!["--features", "stack"],
+            1 => vec!["-f", "stack"],
+            _ => vec!["--features=stack"],
+        }
+    } else {
+        vec![]
+    };
     let check = cli::lace(&["check", "f.asm"], dir.path(), &[], false, 30);
     let mut a = vec!["compile", "f.asm", "out.lc3"];
     a.extend(&feat);
@@ -151,14 +198,31 @@ fn judge_source(spec: &ProgSpec, inject: Inject, stack_flag: bool) -> Obs {
     let mut a = vec!["run", "f.asm"];
     a.extend(&feat);
     let run = cli::lace(&a, dir.path(), &[], false, 60);
-    if check.timed_out || compile.timed_out || run.timed_out {
+    // `lace <file>` (no sub-command) is the quick way to run: it must behave like `run`
+    let mut a = vec!["f.asm"];
+    a.extend(&feat);
+    let bare = cli::lace(&a, dir.path(), &[], false, 60);
+    if check.timed_out || compile.timed_out || run.timed_out || bare.timed_out {
         obs.excluded = Some("watchdog");
         return obs;
     }
     let run_assembled = String::from_utf8_lossy(&run.stdout).contains("Running emitted binary");
     let all = format!("check:   {}\ncompile: {}\nrun:     {}\n{shown}", check.brief(), compile.brief(), run.brief());
+    // an image that assembles but does not fit below 0x10000 is refused by the loader, not by the
+    // assembler: `run` must then stop with the loader's error exit, and is left out of the agreement
+    if valid && !fits {
+        obs.label("image-does-not-fit-in-memory");
+        if run.panicked() || run.ok() {
+            obs.set_fail("C07:unloadable-image-not-refused-cleanly", all.clone());
+        } else if check.panicked() || compile.panicked() || (!stack_flag && check.ok() != compile.ok()) {
+            obs.set_fail(if check.ok() { "C07:check-succeeds-but-compile-fails" } else { "C07:check-fails-but-compile-succeeds" }, all.clone());
+        }
+        return obs;
+    }
     // compile and run take the same flags: they must agree on whether the source assembles
-    if compile.panicked() {
+    if bare.code != run.code || String::from_utf8_lossy(&bare.stdout).contains("Running emitted binary") != run_assembled {
+        obs.set_fail("C07:bare-invocation-differs-from-run", format!("`lace f.asm`: {}\n{all}", bare.brief()));
+    } else if compile.panicked() {
         obs.set_fail("C07:compile-crashes", all.clone());
     } else if !compile.ok() && run_assembled {
         obs.set_fail("C07:run-accepts-what-compile-rejects", all.clone());
@@ -339,6 +403,8 @@ fn source_cases() -> impl Strategy<Value = Case> {
         1 => Just(Inject::UndefinedLabel),
         1 => Just(Inject::RepeatedOrig),
         6 => (any::<u8>(), any::<u8>()).prop_map(|(a, b)| Inject::OutOfReach(a, b)),
+        3 => (any::<u8>(), any::<u8>()).prop_map(|(a, b)| Inject::BackwardAtSize(a, b)),
+        2 => any::<u8>().prop_map(Inject::HighOrigin),
     ];
     (proggen::prog_spec(10), inject, any::<bool>()).prop_map(|(spec, inject, stack_flag)| Case::Source { spec, inject, stack_flag })
 }
@@ -351,7 +417,7 @@ impl Prop for C07 {
         true
     }
     fn rule(&self) -> &'static str {
-        "ProgGen sources, valid and with one injected error of every class (lexical, operand kind, literal range, duplicate label, undefined label, repeated .orig, and a label out of reach at ANY statement position for every PC-relative form BR/BRz/LD/LDI/LEA/ST/STI/JSR/CALL - the only class that surfaces when words are emitted), with and without stack mnemonics, with and without `--features stack`, through the real binary: `lace check f.asm`, `lace compile f.asm out.lc3 [flags]`, `lace run f.asm [flags]`. \
+        "ProgGen sources, valid and with one injected error of every class (lexical, operand kind, literal range, duplicate label, undefined label, repeated .orig, and a label out of reach at ANY statement position for every PC-relative form BR/BRz/LD/LDI/LEA/ST/STI/JSR/CALL - the only class that surfaces when words are emitted; paddings barely / comfortably / far beyond the reach, and backward references in programs whose total size sits exactly at the reach of the field), valid programs whose image ends within 2 words of the top of memory, with and without stack mnemonics, with and without `--features stack`, through the real binary: `lace check f.asm`, `lace compile f.asm out.lc3 [flags]`, `lace run f.asm [flags]` and the bare `lace f.asm [flags]` (flag spelled `-f stack`, `--features stack` or `--features=stack`). \
          Oracle: compile and run (same flags) agree on whether the source assembles (run reaches 'Running emitted binary' iff compile exits 0); compile rejects => run and (default setting) check report an error, where a crash (status 101 / signal / panic message) never counts as a report; check succeeds => compile succeeds; check never crashes. \
          `lace watch`: three scenarios of 3-7 plain rewrites (same labelled source twice, failures half-way then valid again, stack mnemonics): after each debounced re-check the verdict printed (Success / diagnostic / crash) must equal `lace check` on the same content; a scenario that yields no verdict within 15 s is recorded as inconclusive and not asserted. \
          Non-trivial: the only error is an emission-time one, or the source uses a stack mnemonic, or a watch scenario. Distinct = hash(source, flag)."
